@@ -268,6 +268,11 @@ def inject(s, vc_files):
                         if p.startswith('props='):
                             props = p[6:].split(',')
                     info['fns'].setdefault(name, set()).update(props)
+                    # tag the fn header with its properties (read back by checklib.fn_table)
+                    m3 = code_mask(s)
+                    fst, fls, fbo, fbc = fn_span(s, m3, name, item_lo, item_hi())
+                    k = s.index('fn ' + name, fls) + 3 + len(name)
+                    s = s[:k] + '/*PROPS:%s*/' % ','.join(props) + s[k:]
                     s = apply_fn_sections(s, sub, item_lo, item_hi, log, copies)
                     if copies:
                         sec = Section('module', '', top.lineno, top.src)
